@@ -169,6 +169,7 @@ def run_spec(spec, props=("C01", "C02")):
         else:
             arrs = list(out)
         A.outcomes.add(hsh([a.tolist() for a in arrs]))
+        A.count["rows_checked"] = A.count.get("rows_checked", 0) + 1
         if len(arrs[0]) > 1:
             A.nontrivial.add(hsh((r.chosen(),)))
         if main in props:
